@@ -1,7 +1,10 @@
 #!/usr/bin/env python3
 # Probe: C07 signed_duration_since (joint leap line), C04 offset shifts, C08 diff_months, C03 day iterator (R6)
 import sys, re
-sys.path.insert(0, '/tmp/vprobe')
+import os
+HERE = os.path.dirname(os.path.abspath(__file__))
+OUT = os.environ.get('PROBE_OUT', '/var/tmp')
+sys.path.insert(0, HERE)
 from xprobe import *
 
 TM = Src('/repo/src/naive/time/mod.rs')
@@ -134,5 +137,5 @@ it_fn = emit_fn(sig, body, requires="dwf(old(self).value)",
 
 out = (PRE + 'impl NaiveTime {\n' + time_fns + '}\nimpl NaiveDate {\n' + date_fns + '}\nimpl NaiveDateTime {\n' + dt_fns +
        '}\nimpl NaiveDateDaysIterator {\n' + it_fn + '}\n} // verus!\nfn main() {}\n')
-open('/tmp/vprobe/misc_unit.rs', 'w').write(out)
+open(os.path.join(OUT, 'misc_unit.rs'), 'w').write(out)
 print('ok')
